@@ -365,6 +365,51 @@ def c06(tier):
 
 
 # ------------------------------------------------------------------ C08
+def epevade_family(rnd, n):
+    """positions around 'double push gives check, en passant is the only evasion' (both colours, both push sides, all files that fit)"""
+    def fen_of(pieces, stm, ep):
+        rows = []
+        for r in range(7, -1, -1):
+            row, gap = "", 0
+            for f in range(8):
+                c = pieces.get((f, r))
+                if c:
+                    row += (str(gap) if gap else "") + c
+                    gap = 0
+                else:
+                    gap += 1
+            rows.append(row + (str(gap) if gap else ""))
+        return "/".join(rows) + " %s - %s 0 30" % (stm, ep)
+
+    def mirror(pieces):
+        return {(f, 7 - r): (c.lower() if c.isupper() else c.upper()) for (f, r), c in pieces.items()}
+    out = []
+    for kf in range(1, 7):
+        for side in (-1, 1):
+            pf = kf + side                      # file of the pawn that will be pushed
+            for rf in range(8):
+                if abs(rf - kf) < 2:
+                    continue
+                for wk in ((0, 0), (7, 0), (0, 7), (7, 7)):
+                    # white: pawn on its second rank, protector pawn on the third below the king, knight two ranks above the king, rook on the
+                    # rank above the king; black: king on its fifth... (from white's side: rank index 4), pawn right below it
+                    pieces = {(kf, 4): "k", (kf, 3): "p", (pf, 1): "P", (kf, 2): "P", (kf, 6): "N", (rf, 5): "R", wk: "K"}
+                    if len(pieces) != 7 or abs(wk[0] - rf) == 0 and wk[1] == 5:
+                        continue
+                    if wk == (rf, 7) or (wk[1] == 7 and abs(wk[0] - kf) <= 1):     # king next to / behind the knight's square region: keep clear
+                        continue
+                    before = fen_of(pieces, "w", "-")
+                    after_p = dict(pieces)
+                    del after_p[(pf, 1)]
+                    after_p[(pf, 3)] = "P"
+                    after = fen_of(after_p, "b", "abcdefgh"[pf] + "3")
+                    out += [before, after]
+                    mb, ma = mirror(pieces), mirror(after_p)
+                    out += [fen_of(mb, "b", "-"), fen_of(ma, "w", "abcdefgh"[pf] + "6")]
+    rnd.shuffle(out)
+    return out[:n]
+
+
 def c08(tier):
     ck = Check("C08", tier, "model_checking")
     exe = build.build("plain")
@@ -403,6 +448,21 @@ def c08(tier):
         d0 = rnd.choice([1, 2, 3, 4])
         plan.append(plan_line(p["fen"], "depth %d" % d0, sm=["@nonmating"], tt=rnd.choice(["fresh", "warm"]), tag="m1sm"))
         plan.append(plan_line(p["fen"], "depth %d" % rnd.choice([1, 1, 2, 3]), tt="again", tag="m1"))
+    # ... or was stopped early (go infinite, stop after a few node visits): whatever the abandoned search wrote into the table, the next go
+    # on the same position must still play the mate
+    for p in mate1[: (600 if full else 80)]:
+        plan.append(plan_line(p["fen"], "infinite", tt=rnd.choice(["fresh", "warm"]), stop_id="node", stop_n=rnd.choice([2, 3, 4, 5, 6, 8, 12, 20, 40]), tag="m1st"))
+        plan.append(plan_line(p["fen"], "depth %d" % rnd.choice([1, 1, 2, 3]), tt="again", tag="m1"))
+    # the same roots at the fifty-move boundary (half-move clock 99 and 100: the mating move completes or exceeds the fifty moves;
+    # checkmate ends the game before any draw can be claimed)
+    def with_clock(fen, hmc):
+        f = fen.split()
+        f[4] = str(hmc)
+        f[5] = str(max(int(f[5]), hmc // 2 + 2))
+        return " ".join(f)
+    for p in [q for q in mate1 if q["fen"].split()[3] == "-"][: (400 if full else 60)]:      # (an en-passant square means a pawn has just moved: clock 0)
+        for hmc in (99, 100):
+            plan.append(plan_line(with_clock(p["fen"], hmc), "depth %d" % rnd.choice([1, 2, 3]), tt=rnd.choice(["fresh", "warm"]), tag="m1clk"))
     # announcements: shallow searches over many sparse and game positions (where the all-moves-pruned value shows), real session histories:
     # the same root repeated, then its table reused
     n = 40000 if full else 9000
@@ -443,6 +503,12 @@ def c08(tier):
                 plan2.append(plan_line(f[0], "depth %d" % d, tt="fresh" if d == 1 else "warm", tag="near"))
         else:
             plan2.append(plan_line(f[0], "depth 11", tt="fresh", tag="zz"))
+    # constructed: a double pawn push gives check and the en-passant capture of the checking pawn is the ONLY evasion (king boxed in by a
+    # rook on the rank behind it, a knight, and the pawn that protects the pushed pawn); searched one ply before the push and right after it
+    ep_roots = epevade_family(rnd, 200 if full else 40)
+    for fen in ep_roots:
+        for d in ([1, 2, 3] if full else [1, 2]):
+            plan2.append(plan_line(fen, "depth %d" % d, tt="fresh" if d == 1 else "warm", tag="near"))
     for fen in [l.strip() for l in open(os.path.join(DATA, "roots_nearmate_found.fen")) if l.strip() and not l.startswith("#")]:
         for d in [2, 3, 4]:
             plan2.append(plan_line(fen, "depth %d" % d, tt="fresh", tag="near"))
